@@ -608,9 +608,9 @@ class Checkers(object):
         if not ok:
             return False, why
         # progress_handshake is only driven while the state is still None
-        root = self.hir('io_loop::IoLoop::run_tls_handshake')
-        calls = self.if_guards(root, lambda n: n.get('k') == 'MethodCall' and n['name'] == 'progress_handshake')
-        if len(calls) != 1 or not any(H.peel(ifn['cond']).get('k') == 'MethodCall' and H.peel(ifn['cond'])['name'] == 'is_none' and pol for k, ifn, pol in calls[0][0]):
+        evs2, _ = self.ctx.events('io_loop::IoLoop::run_tls_handshake')
+        calls = [e for e in evs2 if e.kind == 'call' and e.callee.endswith('progress_handshake')]
+        if len(calls) != 1 or not any(p_ == 'None' and s_.startswith('$c') for s_, p_ in S.lits_at(calls[0])):
             return False, 'progress_handshake is not guarded by state.is_none()'
         return True, 'inner is None only after the handshake finished or failed; the loop then exits before any further use'
 
